@@ -813,15 +813,15 @@ Definition jinv (s : jstate) : Prop :=
 (* a loop over the instances whose body succeeds on every instance *)
 Section LoopOk.
 Variable f : nat -> bool -> qinst -> bool * qinst * result * list event.
-Variable P : nat -> qinst -> Prop.
+Variable P P' : nat -> qinst -> Prop.
 Variable R : qinst -> qinst -> Prop.
 Hypothesis Hf : forall i q, P i q -> (i < n)%nat ->
-  exists q' ev, f i true q = (true, q', ROk, ev) /\ P i q' /\ R q q'.
+  exists q' ev, f i true q = (true, q', ROk, ev) /\ P' i q' /\ R q q'.
 
 Lemma jloop_ok : forall qs i0,
   (forall k q, nth_error qs k = Some q -> P (i0 + k) q) -> (i0 + length qs <= n)%nat ->
   exists qs' ev, jloop f i0 true qs = (true, qs', ROk, ev) /\
-    (forall k q', nth_error qs' k = Some q' -> P (i0 + k) q') /\
+    (forall k q', nth_error qs' k = Some q' -> P' (i0 + k) q') /\
     Forall2 R qs qs'.
 Proof.
   induction qs as [|q qs IH]; intros i0 Hw Hl; cbn [jloop].
@@ -1045,9 +1045,7 @@ Proof. intro H. destruct (nth_error l i) eqn:E; [eauto|]. apply nth_error_None i
 (* the loop over all instances for a call every instance accepts *)
 Lemma jloop_call_ok s c (g : nat -> nat) :
   jinv s -> j_jrun s = true ->
-  (forall i q, inst_ok true i q ->
-     aut_step PQual cf (Nat.eqb my i) (mkA true (b2n (q_st q) + b2n (q_ct q))%nat) c
-     = (mkA true (g (b2n (q_st q) + b2n (q_ct q))%nat), KOk)) ->
+  (forall b, aut_step PQual cf b (mkA true (a_to (jabs s))) c = (mkA true (g (a_to (jabs s))), KOk)) ->
   forall f, (forall i q, qual_step cf i (mkQS true q) c = qpack (f i true q)) ->
   exists qs' ev, jloop f 0 true (j_insts s) = (true, qs', ROk, ev) /\
      jinv (mkJ true true qs') /\
@@ -1055,30 +1053,31 @@ Lemma jloop_call_ok s c (g : nat -> nat) :
 Proof.
   intros Hinv Hj HA f Hf. pose proof (insts_nonempty s Hinv) as Hne.
   destruct Hinv as (L & Hi & (st & ct & Hs) & J4). rewrite Hj in Hi.
-  destruct (jloop_ok f (inst_ok true)
-              (fun q q' => (b2n (q_st q') + b2n (q_ct q'))%nat = g (b2n (q_st q) + b2n (q_ct q))%nat))
+  destruct (same_to_hd _ _ _ Hs Hne) as [Hst Hct].
+  unfold jabs in *. cbn [a_to] in *. rewrite Hst, Hct in *.
+  destruct (jloop_ok f (fun i q => inst_ok true i q /\ q_st q = st /\ q_ct q = ct) (inst_ok true)
+              (fun q q' => (b2n (q_st q') + b2n (q_ct q'))%nat = g (b2n st + b2n ct)%nat))
     with (qs := j_insts s) (i0 := 0%nat) as (qs' & ev & E & W' & HF).
-  - intros i q Hq Hlt. destruct (inst_call_ok i q c _ Hq (HA i q Hq)) as (q' & ev & E & W & Hsum).
+  - intros i q (Hq & E1 & E2) Hlt.
+    destruct (inst_call_ok i q c (mkA true (g (b2n st + b2n ct)%nat)) Hq) as (q' & ev & E & W & Hsum).
+    { rewrite E1, E2. apply HA. }
     rewrite Hf in E. apply qpack_inv in E. exists q', ev. split; [exact E|]. split; [exact W|exact Hsum].
-  - intros k q E. apply Hi. exact E.
+  - intros k q E. split; [apply Hi; exact E|]. apply Hs. eapply nth_error_In; eauto.
   - rewrite L. lia.
   - exists qs', ev. split; [exact E|].
-    destruct (same_to_hd _ _ _ Hs Hne) as [Hst Hct].
     assert (Hs' : same_to qs' (1 <=? g (b2n st + b2n ct))%nat (2 <=? g (b2n st + b2n ct))%nat).
     { intros q' Hin. apply In_nth_error in Hin as [k Ek].
       destruct (Forall2_nth _ _ _ HF k q' Ek) as (q & Eq & Rq).
-      destruct (Hs q (nth_error_In _ _ Eq)) as [E1 E2]. rewrite E1, E2 in Rq.
       apply sum_flags; [|exact Rq]. destruct (W' k q' Ek) as [(_ & _ & _ & Q3) _]. exact Q3. }
     assert (Hne' : qs' <> []).
     { intro E0. subst qs'. apply Forall2_length_eq in HF. cbn in HF. rewrite L in HF. unfold n in HF. lia. }
     split.
     + split; [cbn [j_insts]; rewrite <- (Forall2_length_eq _ _ _ HF); exact L|].
       split; [exact W'|]. split; [eauto|auto].
-    + unfold jabs. cbn [j_insts j_jrun]. destruct (same_to_hd _ _ _ Hs' Hne') as [A B].
+    + cbn [j_insts j_jrun].
       assert (Hhd : In (hd q_init qs') qs') by (apply hd_in; exact Hne').
       apply In_nth_error in Hhd as [k Ek].
-      destruct (Forall2_nth _ _ _ HF k _ Ek) as (q & Eq & Rq).
-      destruct (Hs q (nth_error_In _ _ Eq)) as [E1 E2]. rewrite E1, E2 in Rq. rewrite Rq, Hst, Hct. reflexivity.
+      destruct (Forall2_nth _ _ _ HF k _ Ek) as (q & Eq & Rq). rewrite Rq. reflexivity.
 Qed.
 
 Lemma joint_step_sim s c : jinv s ->
@@ -1140,13 +1139,12 @@ Proof.
       * discriminate.
     + destruct (jloop_call_ok (mkJ true true insts) CNextTimeout S Hinv eq_refl) with
         (f := fun i run q => q_next_timeout cf i run q) as (qs' & ev & E & Hinv' & Hab).
-      * intros i q [(_ & _ & _ & Q3) _]. cbn. destruct (q_st q), (q_ct q); cbn; try reflexivity.
-        specialize (Q3 eq_refl). discriminate.
+      * intros b. unfold jabs. cbn. rewrite Hst, Hct. destruct st; reflexivity.
       * intros; reflexivity.
       * cbn [j_insts] in E. rewrite E. replace (b2n st + b2n false)%nat with (b2n st + 0)%nat by reflexivity.
         assert (Hlt : (2 <=? b2n st + 0)%nat = false) by (destruct st; reflexivity).
         rewrite Hlt. split; [exact Hinv'|]. split; [|reflexivity].
-        rewrite Hab. unfold jabs. cbn. rewrite Hst, Hct. reflexivity.
+        unfold jabs in Hab; cbn in Hab |- *; rewrite Hst, Hct in Hab; exact Hab.
   - (* End *)
     unfold joint_end. cbn [j_jrun j_insts j_run]. destruct jrun; cbn [negb].
     2:{ split; [exact Hinv|]. unfold jabs; cbn. rewrite Hst, Hct. auto. }
@@ -1169,7 +1167,7 @@ Proof.
         destruct (Forall2_nth _ _ _ HF k _ Ek) as (q & Eq & Rq).
         destruct (Rend_to _ _ Rq) as [A B]. destruct (Hs q (nth_error_In _ _ Eq)) as [C D].
         unfold jabs. cbn. rewrite A, B, C, D. reflexivity. }
-      destruct ((c_t cf <? length (filter q_disq qs'))%nat || (c_n cf - length (filter q_disq qs') <=? c_t cf)%nat) eqn:Efail.
+      match goal with |- context[if ?b then (_, RFailure, _) else _] => destruct b eqn:Efail end.
       * split; [exact Hinv'|]. split; [exact Habs'|reflexivity].
       * apply orb_false_iff in Efail as [_ Ef]. apply Nat.leb_gt in Ef.
         destruct (sum_up_ok qs') as (x & Y & ys & Esum).
@@ -1194,10 +1192,10 @@ Proof.
     destruct (in_range cf o) eqn:Eo; cbn [negb].
     + destruct (jloop_call_ok (mkJ true true insts) (CBroadcast o m) (fun k => k) Hinv eq_refl) with
         (f := fun i run q => q_broadcast cf i run q o m) as (qs' & ev & E & Hinv' & Hab).
-      * intros i q _. cbn. rewrite Eo. reflexivity.
+      * intros b. cbn. rewrite Eo. reflexivity.
       * intros; reflexivity.
       * cbn [j_insts] in E. rewrite E. split; [exact Hinv'|]. split; [|reflexivity].
-        rewrite Hab. unfold jabs. cbn. rewrite Hst, Hct. reflexivity.
+        unfold jabs in Hab; cbn in Hab |- *; rewrite Hst, Hct in Hab; exact Hab.
     + destruct insts as [|q0 qs]; [congruence|].
       rewrite (jloop_refused _ 0%nat true q0 qs RInvalidInput).
       * split; [exact Hinv|]. unfold jabs; cbn. cbn in Hst, Hct. rewrite Hst, Hct. auto.
@@ -1210,10 +1208,10 @@ Proof.
     destruct (in_range cf o) eqn:Eo; cbn [negb].
     + destruct (jloop_call_ok (mkJ true true insts) (CPrivate o m) (fun k => k) Hinv eq_refl) with
         (f := fun i run q => q_private cf i run q o m) as (qs' & ev & E & Hinv' & Hab).
-      * intros i q _. cbn. rewrite Eo. reflexivity.
+      * intros b. cbn. rewrite Eo. reflexivity.
       * intros; reflexivity.
       * cbn [j_insts] in E. rewrite E. split; [exact Hinv'|]. split; [|reflexivity].
-        rewrite Hab. unfold jabs. cbn. rewrite Hst, Hct. reflexivity.
+        unfold jabs in Hab; cbn in Hab |- *; rewrite Hst, Hct in Hab; exact Hab.
     + destruct insts as [|q0 qs]; [congruence|].
       rewrite (jloop_refused _ 0%nat true q0 qs RInvalidInput).
       * split; [exact Hinv|]. unfold jabs; cbn. cbn in Hst, Hct. rewrite Hst, Hct. auto.
